@@ -73,8 +73,9 @@ class AbstractDeme(ABC):
 
     @property
     def centroid(self) -> np.ndarray:
-        if self._centroid is None:
-            self._centroid = compute_centroid(self.current_population)
+        # The population changes with every metaepoch, so the centroid is always that of the current population
+        # (a value memoised at first use would be stale for every engine that does not reset it).
+        self._centroid = compute_centroid(self.current_population)
         return self._centroid
 
     @property
